@@ -72,20 +72,20 @@ V("C03", "lambda arity from any kind", P,
 V("C03", "string scan stops at semicolon", LX,
   "            while source and source[0] != head:\n",
   "            while source and source[0] != head and source[0] != \";\":\n",
-  "C03.lexer-scan-guard")
+  "C03.lexer-payload-opaque")
 V("C03", "lexer re-queues payload", LX,
   "                    contextual_token_value += character\n",
   "                    contextual_token_value += character\n"
   "                    if character == \"|\":\n"
   "                        source.appendleft(character)\n"
-  "                        break\n", "C03.lexer-no-requeue")
+  "                        break\n", "C03.lexer-payload-opaque")
 # ---- C04 ----------------------------------------------------------------------------
 V("C04", "token only when closed", LX,
   "            tokens.append(Token(token_type, contextual_token_value))\n"
   "            if source:\n                source.popleft()",
   "            if source:\n"
   "                tokens.append(Token(token_type, contextual_token_value))\n"
-  "                source.popleft()", "C04.literal-built-without-closer")
+  "                source.popleft()", "C04.closer-optional")
 V("C04", "collector rejects unclosed", P, "    return branches\n",
   "    if bracket_stack:\n        raise SyntaxError(\"unclosed\")\n"
   "    return branches\n", "C04.collector-never-rejects")
@@ -99,7 +99,7 @@ V("C05", "decimal through nsimplify", T,
   'sympy.sympify("{parts}", rational=True)',
   'sympy.nsimplify("{parts}", rational=True)', "C05.exact-constructor")
 V("C05", "two points in one number", LX, 'x.count(".") < 2', 'x.count(".") < 3',
-  "C05.second-point-splits")
+  "C05.number-splitting")
 # ---- C06 ----------------------------------------------------------------------------
 V("C06", "escaped backquote kept escaped", T,
   '                if after_char == "`":\n                    temp += "`"\n',
@@ -249,9 +249,16 @@ V("C18", "function name unsanitised", T,
   "        var = struct.name\n\n"
   "        return indent_str(\n            f\"stack += VAR_",
   "C18.flow-sanitised")
-V("C18", "compressed string without repr", T,
+# a base-27 compressed string decodes to [a-z ]* only, so quoting it by hand
+# instead of with !r is still safe: a benign twin, not a violation
+B(["C18", "C02"], "compressed string quoted by hand", T,
   'f"stack.append({uncompress(token)!r})"',
-  "f\"stack.append('{uncompress(token)}')\"", "C18.flow-sanitised")
+  "f\"stack.append('{uncompress(token)}')\"")
+# one payload character cannot both close the quote and stay parsable, so
+# this is a compile problem (C02), not an injection (C18)
+V("C02", "character literal quoted by hand", T,
+  'f"stack.append({token.value!r})"', "f\"stack.append('{token.value}')\"",
+  "C02.token-compiles")
 V("C18", "variable scanning accepts digits and dots", LX,
   'while source and source[0] in string.ascii_letters + "_":',
   'while source and source[0] in string.ascii_letters + "_.()":', "C18.")
